@@ -320,7 +320,47 @@ def dispatcher(repo, rep):
     for tnode in tops:
         walk_if(tnode)
     if len(chain) < 6:
-        raise AnalysisError("read_dataset: dispatch chain not understood")
+        # table-driven form:  for (tag, names, reader) in TABLE: if not names - vars_dset: break   else: raise ValueError
+        table = None
+        for n in ast.walk(fi.node):
+            if isinstance(n, ast.Assign) and isinstance(n.targets[0], ast.Name) and isinstance(n.value, (ast.Tuple, ast.List)) and n.value.elts \
+                    and all(isinstance(e, (ast.Tuple, ast.List)) for e in n.value.elts):
+                rows = []
+                for e in n.value.elts:
+                    st_ = [x for x in e.elts if isinstance(x, ast.Set) or (isinstance(x, ast.Call) and call_name(x) in ("set", "frozenset"))]
+                    rd_ = [x for x in e.elts if isinstance(x, ast.Name) and isinstance(repo.resolve_symbol(fi.module, x.id), FuncInfo)]
+                    if len(st_) == 1 and len(rd_) == 1:
+                        names_ = repo.const(fi.module, st_[0])
+                        if isinstance(names_, (set, frozenset)):
+                            rows.append((frozenset(names_), rd_[0].id, e))
+                if len(rows) == len(n.value.elts):
+                    table = (n.targets[0].id, rows)
+        loop = None
+        if table is not None:
+            for l_ in ast.walk(fi.node):
+                if isinstance(l_, ast.For) and unparse(l_.iter) == table[0] and isinstance(l_.target, ast.Tuple):
+                    tnames = [unparse(x) for x in l_.target.elts]
+                    brk = [i_ for i_ in l_.body if isinstance(i_, ast.If) and any(isinstance(b_, ast.Break) for b_ in i_.body)]
+                    if brk:
+                        t_ = brk[0].test
+                        sub_ok = isinstance(t_, ast.UnaryOp) and isinstance(t_.op, ast.Not) and isinstance(t_.operand, ast.BinOp) and isinstance(t_.operand.op, ast.Sub) \
+                            and unparse(t_.operand.left) in tnames
+                        if sub_ok and disp in tnames:
+                            loop = l_
+        if loop is None:
+            raise AnalysisError("read_dataset: dispatch chain not understood")
+        # the wavespectra early return is the first chain entry already collected (if any); rebuild the chain from the table
+        chain = [c_ for c_ in chain if c_[0] in sets and tag_of.get(c_[0]) == "wavespectra"]
+        for names_, reader, node in table[1]:
+            tag = reader.replace("from_", "")
+            key = f"vars_{tag}"
+            sets[key] = names_
+            tag_of[key] = next((t for t in TAGS if t == tag), tag)
+            chain.append((key, reader, node))
+        if loop.orelse:
+            chain.append(("else", unparse(loop.orelse[0])[:40], loop.orelse[0]))
+        else:
+            chain.append(("else", "falls through", loop))
     if not chain[-1][1].startswith("raise ValueError"):
         rep.fail("R-C12-3", fi.file, chain[-1][2].lineno, fi.qualname, chain[-1][1], "an unidentified dataset must be rejected with ValueError")
     else:
